@@ -247,6 +247,37 @@ def component_checks(quick):
                     viol.append({"key": f"{cn}/equal-update-all/invalidates", "what": f"{cn}: {how} (every value equal to the current one) recomputed {sorted(changed)[:6]}",
                                  "replay": {"kind": "c13", "script": [f"o = {cn}(**{extra})", "read every quantity", f"o.{how}", "read every quantity again: same objects expected"]}})
                     break
+        # introspection helpers between two reads change nothing (same objects afterwards; the helpers may themselves be unusable)
+        for cn in ("Transfer", "MassFunction"):
+            cls = realfuzz.class_by_name(cn)
+            o = cls(**copy.deepcopy(realfuzz.BASE[cn]))
+            held = {}
+            for q in realfuzz.quantities(cls):
+                try:
+                    held[q] = getattr(o, q)
+                except Exception:
+                    pass
+            for label, call in (("get_dependencies(<each quantity>)", lambda: [o.get_dependencies(q_) for q_ in list(held)]), ("parameter_values", lambda: o.parameter_values),
+                                ("get_all_parameter_defaults()", lambda: cls.get_all_parameter_defaults()), ("get_all_parameter_names()", lambda: list(cls.get_all_parameter_names())),
+                                ("quantities_available()", lambda: cls.quantities_available()), ("parameter_info()", lambda: cls.parameter_info())):
+                try:
+                    call()
+                except Exception:
+                    try:      # (get_dependencies raises on this tree: call it quantity by quantity so that every one is attempted)
+                        if label.startswith("get_dependencies"):
+                            for q_ in list(held):
+                                try:
+                                    o.get_dependencies(q_)
+                                except Exception:
+                                    pass
+                    except Exception:
+                        pass
+                n += 1
+                changed = [q for q, b in held.items() if getattr(o, q) is not b]
+                if changed:
+                    viol.append({"key": f"{cn}/introspection-invalidates", "what": f"{cn}: calling {label} between two reads recomputed {sorted(changed)[:5]}",
+                                 "replay": {"kind": "c13", "script": [f"o = {cn}(...)", "read every quantity", f"o.{label}", "read every quantity again: same objects expected"]}})
+                    break
         runs = {}
         orig_lnt = tmm.EH_BAO.lnt
         cnt = [0]
